@@ -27,7 +27,7 @@ FLOORS = {"renamed": 0.229, "collision": 0.073, "illegal-char-in-source": 0.147,
 LONGLIG = "_".join(["A-cy"] * 16)
 NAMEPOOL = ["a", "b", "a.alt", "a.sc", "f_i", "f_f_i", "f_i.alt", "uni0061", "uni0061.1", "u1F600", "uni00610062", "a_b", "A-cy", "x@y", "naïve", "L" * 70,
             "f", "i", "_part", "a.alt.1", "b.alt", "a.1", "ab", "a-b", "ab.1", "one", "two", LONGLIG, "A", "uni0041"]
-CPS = [0x61, 0x62, 0x66, 0x69, 0x1F600, 0x410, 0x41, 0x31, 0x32]
+CPS = [0x61, 0x62, 0x66, 0x69, 0x1F600, 0x410, 0x41, 0x31, 0x32, 0x0]
 EXTRA_CPS = [0x3A9, 0x2126, 0x263A, 0x212A, 0x4B, 0x1F601, 0x100, 0x20]
 LEGAL = re.compile(r"^[0-9A-Za-z_.]*$")
 INVALID = re.compile(r"[^0-9a-zA-Z_.]")
